@@ -13,8 +13,8 @@ TECHNIQUE = "property-based testing with exhaustive state enumeration: every gro
 RULE = (
     "Generated MultiAgentProblems (2 agents, 1-2 private Boolean fluents each with 0-1 parameters, 1-2 public environment fluents, "
     "1-2 actions per agent with 0-1 parameters; preconditions over own fluents, environment fluents and Dot(other agent, fluent) "
-    "with and / or / not / implies / iff; effects on own and environment fluents, conditional (ma_cerm) and with disjunctive "
-    "conditions (ma_dcrm); goals over Dot(agent, fluent) and environment fluents, disjunctive for ma_dcrm), compiled with "
+    "with and / or / not / implies / iff; effects on own and environment fluents and on an int environment fluent (conditional assignments of different "
+    "constants, conflicting when several conditions hold), conditional (ma_cerm) and with disjunctive conditions (ma_dcrm); goals over Dot(agent, fluent) and environment fluents, disjunctive for ma_dcrm), compiled with "
     "MAConditionalEffectsRemover or MADisjunctiveConditionsRemover (inside supports()).  For EVERY total state over the ground "
     "fluents (<= 2^10, otherwise 512 drawn states) and every agent / ground original action a: a is applicable iff some compiled "
     "variant with map_back = a is applicable (a no-op a may have no variant); every applicable variant yields a's successor on "
@@ -96,6 +96,7 @@ def cases(draw):
         return [k, bexpr(ai, params, depth - 1, disj), bexpr(ai, params, depth - 1, disj)]
 
     disj = comp == "ma_dcrm"
+    has_int = g.b(0.5)
     for ai, ag in enumerate(agents):
         for j in range(g.i(1, 2)):
             params = ["x"] if g.b(0.5) else []
@@ -112,9 +113,14 @@ def cases(draw):
                 if g.b(0.6 if comp == "ma_cerm" else 0.3):
                     cond = bexpr(ai, params, g.i(0, 1), disj)
                 effs.append({"fl": target, "val": g.b(0.55), "cond": cond})
+            if has_int and g.b(0.5):
+                # conditional assignments of DIFFERENT constants to one non-Boolean fluent: conflicting when
+                # both conditions hold (the variant must then not exist / not be applicable)
+                for val_ in ([1, 2] if g.b(0.7) else [g.i(0, 2)]):
+                    effs.append({"fl": ["efl", "n"], "val": val_, "cond": bexpr(ai, params, g.i(0, 1), disj) if g.b(0.85) else None})
             ag["actions"].append({"name": f"act{j}", "params": params, "pre": pre, "eff": effs})
     goals = [bexpr(None, [], g.i(0, 2) if disj else g.i(0, 1), disj) for _ in range(g.i(0, 2))]
-    return {"compiler": comp, "env_fluents": env_fl, "agents": agents, "goals": goals, "state_seed": g.i(0, 10**6)}
+    return {"compiler": comp, "env_fluents": env_fl, "int_fluent": has_int, "agents": agents, "goals": goals, "state_seed": g.i(0, 10**6)}
 
 
 # ------------------------------------------------------------------ builder
@@ -141,6 +147,10 @@ class Built:
             fl = Fluent(f["name"], tm.BoolType(), sig, self.env)
             p.ma_environment.add_fluent(fl, default_initial_value=False)
             self.env_fl[f["name"]] = fl
+        if case.get("int_fluent"):
+            fl = Fluent("n", tm.IntType(0, 2), environment=self.env)
+            p.ma_environment.add_fluent(fl, default_initial_value=0)
+            self.env_fl["n"] = fl
         self.agents = {}
         self.ag_fl = {}
         for ag in case["agents"]:
@@ -212,6 +222,8 @@ def ev(problem, n, state, agent, pb):
     nt = n.node_type
     if nt == OK.BOOL_CONSTANT:
         return bool(n.constant_value())
+    if nt == OK.INT_CONSTANT:
+        return int(n.constant_value())
     if nt == OK.OBJECT_EXP:
         return n.object().name
     if nt == OK.PARAM_EXP:
@@ -260,6 +272,8 @@ def apply(problem, agent, action, pb, state):
         k = owner_key(problem, agent, e.fluent.fluent(), args)
         v = ev(problem, e.value, state, agent, pb)
         if k in writes and writes[k] != v:
+            if not isinstance(v, bool):
+                return None  # two different values for one non-Boolean fluent: inapplicable
             v = True  # Boolean add-after-delete
         writes[k] = v
     succ = dict(state)
@@ -325,13 +339,14 @@ def check(ctx, case):
             else:
                 variants.setdefault((ag.name, back.action.name), []).append(na)
     n = len(keys)
+    doms = [[0, 1, 2] if (k[0] == "env" and k[1] == "n") else [False, True] for k in keys]
     if n <= 10:
-        states = [dict(zip(keys, bits)) for bits in product([False, True], repeat=n)]
+        states = [dict(zip(keys, vals)) for vals in product(*doms)]
     else:
         import random
 
         rnd = random.Random(case["state_seed"])  # the seed is a generated input
-        states = [dict((k, rnd.random() < 0.5) for k in keys) for _ in range(512)]
+        states = [dict((k, rnd.choice(d)) for k, d in zip(keys, doms)) for _ in range(512)]
     objs = [o.name for o in p.all_objects]
     sh = case_hash({k: v for k, v in case.items() if k != "state_seed"})
     for s in states:
